@@ -3320,7 +3320,7 @@ func (bc *Blockchain) GetTestHistoricVM(t trigger.Type, tx *transaction.Transact
 	}
 	var mode = mpt.ModeAll
 	if bc.config.RemoveUntraceableBlocks {
-		if b.Index < bc.BlockHeight()-bc.GetMaxTraceableBlocks() {
+		if mtb := bc.GetMaxTraceableBlocks(); bc.BlockHeight() > mtb && b.Index < bc.BlockHeight()-mtb {
 			return nil, fmt.Errorf("state for height %d is outdated and removed from the storage", b.Index)
 		}
 		mode |= mpt.ModeGCFlag
